@@ -19,6 +19,11 @@ for _pid, _what in [("C01", "@immutable: IMM01-04 incl. receiver overwrite/incde
     CLAIMED[_pid] = dict(technique="rapid-generated multi-package programs from a program model; expected diagnostics computed from the model (not from the analyzer), compared as exact (site, code) sets",
         text="Programs are constructed (never filtered) from a model of packages, types, annotations, functions, methods, package-level initialisers and one-site-per-line statements under random nesting, file placement and declaration order; the real analyzers run on them and the diagnostics of this category must equal the model's expectation in both directions. " + _what + ".",
         note=_exact_note, ref="DESIGN.md section 3, " + _pid)
+
+_meta_note = "baseline is the real tool's own output on the base program, so the relation stays meaningful independently of the exactness checks; identity of statements is carried by trailing tag comments"
+CLAIMED["C12"] = dict(technique="metamorphic testing over rapid-generated programs: semantics-preserving layout transformations must leave the (site, code) verdict set unchanged",
+    text="Generated multi-package programs with all annotation kinds are transformed by chains of 1-3 layout changes (permute declarations, move a declaration to another file, insert blank lines/comments, go/format, consistent renaming of parameters/receivers/locals incl. un-shadowing) and re-analysed; the set of (tagged statement, code) pairs - for TONL01/PKGO01 (using package, type) - must be identical.",
+    note=_meta_note, ref="DESIGN.md section 3, C12")
 ALL = ["C%02d" % i for i in range(1, 20)]
 NA_REASON = {}
 def main():
